@@ -24,6 +24,8 @@ ENUM_SOURCES = {
 
 _file_cache = {}
 def repo_text(rel):
+    if isinstance(rel, tuple):          # injected text (mutant self-test)
+        return _file_cache[rel]
     if rel not in _file_cache:
         with open(os.path.join(REPO, rel)) as f:
             _file_cache[rel] = strip_comments(f.read())
